@@ -451,5 +451,6 @@ verus_unit(
     obligations={
         "encode_symbol": dict(own=["C06", "C09", "C12", "C20"], dep=["C02", "C07", "C11"], kani_twin="range::u8_u16_p8::enc_step_refines",
                               text="ensures: impossible symbol => Err(Frontend), encoder untouched; Ok => (lower,range,situation,emitted words) == ll_enc(..) for any number of held-back words; <= 1 word more; range >= 2^(sb-wb) [all P]"),
+        "thm_ll_enc_is_cstep": dict(own=["C06", "C02"], dep=[], text="layer B = layer A: ll_enc on machine values is the mathematical bookkeeping step cstep (whose abstraction is the exact interval step, lemma_bridge)"),
     },
 )
